@@ -146,6 +146,11 @@ def build_tree(rng, seed, index, depth, counter):
             shape[name] = subshape
         if deps:
             e["suit-integrated-dependencies"] = deps
+            if rng.random() < 0.5:
+                # the dependencies are not the last elements of the envelope: integrated payloads follow them (C04-q)
+                pl = e.pop("suit-integrated-payloads", None) or {}
+                pl[f"#after{depth}"] = "ff" + "%02x" % rng.randrange(256)
+                e["suit-integrated-payloads"] = pl
     return desc, files, shape
 
 
@@ -197,7 +202,10 @@ def work_recursive(args):
                 cfg["already-signed-action"] = rng.choice(["error", "skip", "remove-old"])
         named = {n: s for n, s in shape.items() if rng.random() < 0.8}
         if named or rng.random() < 0.2:
-            cfg["dependencies"] = {n: mk(s, alg, False) for n, s in named.items()}
+            order = list(named.items())
+            if rng.random() < 0.5:
+                rng.shuffle(order)          # a configuration names the dependencies in its own order, not the envelope's (C04-q)
+            cfg["dependencies"] = {n: mk(s, alg, False) for n, s in order}
         return cfg
 
     cfg = mk(shape, "eddsa", True)
